@@ -39,7 +39,7 @@ Section FlexShape.
     (mode = Engine.ComputeSize /\ IsRet a) \/
     (mode <> Engine.ComputeSize /\
      exists walk, (forall c, In c walk <-> in_flow_at st c) /\
-       QSL q_layout l_any (QSL q_layout l_any (QSL q_hidden l_with_order IsRet (hidden_nodes st)) (abs_nodes st)) walk a).
+       QSL q_layout l_any (QSL q_layout l_any (QSLc q_hidden l_with_order IsRet (hidden_nodes st)) (abs_nodes st)) walk a).
 
   (* what is known of the work items at every point of the algorithm *)
   Definition GoodItems (s : FS) (st : list FS) (ws : list W) : Prop :=
